@@ -8,6 +8,7 @@ import Driver.Codec
 import Driver.Dec
 import Driver.Connect
 import Mqtt5V.Model.Frame
+import Mqtt5V.Model.PubSend
 import Mqtt5V.Model.Sender
 import Mqtt5V.Model.Replies
 import Mqtt5V.Model.Verdict
@@ -121,6 +122,7 @@ structure DState where
   rep : Model.Replies.R := {}
   frmMax : Nat := 65536
   frmBuf : Option Wire.Bs := some []
+  pbs : Option Model.PubSend.S := none
 
 def allocN : Nat → Model.PidAlloc.Sys → Nat → Model.PidAlloc.Sys × Nat
   | 0, s, last => (s, last)
@@ -238,8 +240,38 @@ def frmStep (st : DState) (ws : List String) : DState × String :=
   | ["err"] => if st.frmBuf.isNone then (st, "bad-op") else fin st.frmMax ["err aborted"] none
   | _ => (st, "bad-op")
 
+def pbsStep (st : DState) (ws : List String) : DState × String :=
+  open Model.PubSend in
+  let showAct : Act → String
+    | .sendPublish d => s!"sendPublish {d}"
+    | .sendPubrel t => s!"sendPubrel {t}"
+    | .waitAck => "waitAck" | .waitPubcomp => "waitPubcomp" | .disconnectMalformed => "disconnectMalformed" | .freePid => "freePid"
+    | .completeOk rc p => s!"completeOk {rc} {p}" | .completeErr => "completeErr"
+  let fin (r : S × List Act) : DState × String :=
+    ({ st with pbs := some r.1 }, if r.2.isEmpty then "-" else String.intercalate " | " (r.2.map showAct))
+  let pendingSend (s : S) : Bool := s.phase == .sendingPublish || s.phase == .sendingPubrel
+  let pendingWait (s : S) : Bool := s.phase == .waitingAck || s.phase == .waitingPubcomp
+  match ws, st.pbs with
+  | ["new", q], _ => if q = "1" then fin (start false) else if q = "2" then fin (start true) else (st, "bad-op")
+  | ["sent", e], some s =>
+    if !pendingSend s then (st, "bad-op") else
+    match e with
+    | "ok" => fin (step s (.sent .ok)) | "try_again" => fin (step s (.sent .tryAgain)) | "aborted" => fin (step s (.sent .failed))
+    | _ => (st, "bad-op")
+  | "reply" :: k, some s =>
+    if !pendingWait s then (st, "bad-op") else
+    match k with
+    | ["tryagain"] => fin (step s (.reply .tryAgain)) | ["failed"] => fin (step s (.reply .failed))
+    | ["undecodable"] => fin (step s (.reply .undecodable)) | ["badcode"] => fin (step s (.reply .badCode))
+    | ["ack", rc, p] => match rc.toNat?, p.toNat? with
+      | some rc, some p => fin (step s (.reply (.ack rc p))) | _, _ => (st, "bad-op")
+    | _ => (st, "bad-op")
+  | ["cancel"], some s => fin (step s .cancelSignal)
+  | _, _ => (st, "bad-op")
+
 def step (st : DState) (ws : List String) : DState × String :=
   match ws with
+  | "pbs" :: rest => pbsStep st rest
   | "frm" :: rest => frmStep st rest
   | "rep" :: rest => let r := repStep st.rep rest; ({ st with rep := r.1 }, r.2)
   | "snd" :: rest => let r := sndStep st.snd rest; ({ st with snd := r.1 }, r.2)
